@@ -391,7 +391,36 @@ def gen_lines(g, n):
         else:
             M = [[(r.below(m) << r.below(e)) % m for _ in range(4)] for _ in range(4)]
             g.count("ker2e:even-heavy")
-        add("ker2e-oracle", "ker44two %x %s" % (e, " ".join(hx(x) for row in M for x in row)))
+        add("ker2e", "ker44two %x %s" % (e, " ".join(hx(x) for row in M for x in row)))
+    # --- Howell form / right kernel modulo an arbitrary modulus (matkermod.c), several shapes incl. 16x4 (lattice.c)
+    for _ in range(6 * w):
+        rows, cols = r.choice([(4, 4), (4, 4), (3, 2), (2, 2), (5, 3), (4, 1), (16, 4), (6, 6)])
+        c = r.below(6)
+        if c == 0:
+            m = 2 ** (1 + r.below(130))
+        elif c == 1:
+            m = r.choice([2, 3, 4, 6, 12, 30, 36, 210, 1024, 3 ** 5 * 2 ** 7])
+        elif c == 2:
+            m = r.choice(g.primes[:40])
+        elif c == 3:
+            m = 2 ** (1 + r.below(20)) * 3 ** r.below(10) * 5 ** r.below(4)
+        else:
+            m = 1 + r.bits(1 + r.below(200))
+        if m < 2:
+            m = 2
+        c2 = r.below(4)
+        if c2 == 0:
+            M = [[r.below(m) for _ in range(cols)] for _ in range(rows)]
+        elif c2 == 1:
+            M = [[(r.below(m) * r.choice([1, 2, 4, 6, m // 2 or 1])) % m for _ in range(cols)] for _ in range(rows)]
+        elif c2 == 2:
+            M = [[r.choice([0, 0, 1, r.below(m)]) for _ in range(cols)] for _ in range(rows)]
+        else:
+            M = [[r.below(m) + m * r.choice([0, 1, -1]) for _ in range(cols)] for _ in range(rows)]
+        g.count("howell:%dx%d" % (rows, cols))
+        flat = " ".join(hx(x) for row in M for x in row)
+        add("howell", "howell %x %x %s %s" % (rows, cols, hx(m), flat))
+        add("howell", "kermod %x %x %s %s" % (rows, cols, hx(m), flat))
     return out
 
 
@@ -657,6 +686,28 @@ def oracle(line, res):
                 v = list(map(I, R[1:]))
                 if all(x % 2 == 0 for x in v) or any(sum(M[i][j] * v[j] for j in range(4)) % 2**e for i in range(4)):
                     return bad("ibz_4x4_right_ker_mod_power_of_2: returned vector is not a primitive kernel vector")
+        elif op in ("howell", "kermod"):
+            rows, cols, m = I(args[0]), I(args[1]), I(args[2]); es = list(map(I, args[3:]))
+            M = [es[i * cols:(i + 1) * cols] for i in range(rows)]
+            if op == "kermod":
+                K = list(map(I, R))
+                K = [K[i * cols:(i + 1) * cols] for i in range(cols)]
+                for i in range(rows):
+                    for j in range(cols):
+                        if sum(M[i][k] * K[k][j] for k in range(cols)) % m:
+                            return bad("ibz_mat_right_ker_mod: a returned column is not in the kernel of the matrix modulo m")
+            else:
+                z = I(R[0]); bar = R.index("|")
+                H = list(map(I, R[1:bar])); T = list(map(I, R[bar + 1:]))
+                n1 = rows + 1
+                extra = rows + 1 - cols
+                H = [H[i * n1:(i + 1) * n1] for i in range(rows)]; T = [T[i * n1:(i + 1) * n1] for i in range(n1)]
+                for i in range(rows):
+                    for j in range(n1):
+                        if (sum(M[i][k] * T[k + extra][j] for k in range(cols)) - H[i][j]) % m:
+                            return bad("ibz_mat_howell: howell != [0|mat]*trans modulo m")
+                if any(H[i][j] % m for i in range(rows) for j in range(z)):
+                    return bad("ibz_mat_howell: the first `zeros` columns are not zero")
         else:
             return bad("unknown op in oracle")
     except (IndexError, ValueError):
